@@ -10,6 +10,7 @@ def sh(c, cwd=None, timeout=3000):
 res = {}
 for d in sorted(glob.glob(V + "/seeded/*/patch.diff")):
     name = os.path.basename(os.path.dirname(d)); prop = name.split("-")[0]
+    if os.environ.get("SWEEP_ONLY") and not any(name.endswith(x) for x in os.environ["SWEEP_ONLY"].split(",")): continue
     rc, out = sh("git -C /repo status --porcelain --untracked-files=no")
     if out.strip(): print("/repo is not clean, abort"); break
     rc, out = sh("git -C /repo apply %s" % d)
